@@ -468,6 +468,8 @@ type symEnv struct {
 	havocLoops bool
 	onLoop     func(st *symState, loop ast.Stmt)
 	onAssign   func(st *symState, lhs ast.Expr, rhs ast.Expr)
+	// loopBody: the interpreted block is one iteration of a loop (continue/break end the path)
+	loopBody bool
 	havocN     int
 }
 
@@ -1021,10 +1023,23 @@ func (e *symEnv) exec(st *symState, s ast.Stmt) []*symState {
 		// NOTE: fallthrough/break inside switch bodies are not modelled
 		return out
 	case *ast.BranchStmt:
+		if e.loopBody && s.Label == nil {
+			switch s.Tok {
+			case token.CONTINUE:
+				e.finish(st, "fall", nil, s.Pos())
+				return nil
+			case token.BREAK:
+				e.finish(st, "break", nil, s.Pos())
+				return nil
+			}
+		}
 		e.problem("unsupported branch statement %s", s.Tok)
 		return nil
 	case *ast.ForStmt, *ast.RangeStmt:
 		if e.havocLoops {
+			if e.onLoop != nil {
+				e.onLoop(st, s)
+			}
 			ast.Inspect(s, func(x ast.Node) bool {
 				var keys []string
 				switch a := x.(type) {
@@ -1055,9 +1070,6 @@ func (e *symEnv) exec(st *symState, s ast.Stmt) []*symState {
 				}
 				return true
 			})
-			if e.onLoop != nil {
-				e.onLoop(st, s)
-			}
 			return []*symState{st}
 		}
 		e.problem("loop in a function bound to a SYM rule")
